@@ -314,25 +314,6 @@ pub fn alphabet(dt: &DataType, nullable: bool) -> Vec<Val> {
     a
 }
 
-/// all sequences of length 0..=n over `a`, shortest first
-pub fn columns(a: &[Val], n: usize) -> Vec<Vec<Val>> {
-    let mut out: Vec<Vec<Val>> = vec![vec![]];
-    let mut last: Vec<Vec<Val>> = vec![vec![]];
-    for _ in 0..n {
-        let mut next = vec![];
-        for c in &last {
-            for l in a {
-                let mut d = c.clone();
-                d.push(l.clone());
-                next.push(d);
-            }
-        }
-        out.extend(next.iter().cloned());
-        last = next;
-    }
-    out
-}
-
 // ------------------------------------------------------------------------------------------------
 // layouts
 
